@@ -37,6 +37,7 @@ Expect ==
     IF Quiescent'
     THEN [q |-> TRUE,
           synced |-> Len(wchain'),
+          onbest |-> wchain' = best',
           best |-> best',
           pend |-> pend',
           pendIdeal |-> Settle(pend', CC(wchain)'),
@@ -45,7 +46,7 @@ Expect ==
 
 Log(r) == hist' = Append(hist, r @@ [exp |-> Expect])
 
-CanFinish == Len(ntfB') + Len(ntfT') <= GenDepth - (Len(hist) + 1)
+CanFinish == Len(ntfB') + Len(ntfT') + (IF up' THEN 0 ELSE 1) <= GenDepth - (Len(hist) + 1)
 
 \* how an accepted announcement relates to the wallet's own chain (classifier of known findings):
 \*  "stale" - an input is already spent on the wallet's chain or on the node's (a conflict confirmed first)
@@ -66,14 +67,15 @@ SameAct(r, s) ==
     /\ CASE s.a \in {"Extend", "Fork"}          -> r.b = s.b /\ r.p = s.p /\ r.txs = s.txs
          [] s.a \in {"HandleBlock", "SwitchTo"} -> r.b = s.b
          [] s.a \in {"Announce", "HandleTx"}    -> r.t = s.t
+         [] s.a = "RestartCrash"               -> r.k = s.k
          [] OTHER                              -> TRUE
 
 GenNext ==
     /\ Len(hist) < GenDepth
-    /\ \/ \E txs \in Pick(Contents(CC(best))) :
+    /\ \/ up /\ \E txs \in Pick(Contents(CC(best))) :
              /\ Extend(txs) /\ UNCHANGED followerVars
              /\ Log([a |-> "Extend", b |-> NBlk + 1, p |-> Tip, txs |-> <<txs>>])
-       \/ \E pk \in Pick({x \in Range(best) \X (1..GenForkLen) :
+       \/ up /\ \E pk \in Pick({x \in Range(best) \X (1..GenForkLen) :
                                /\ Len(best) - Height(x[1]) <= GenForkDepth
                                /\ x[1] # Tip /\ x[1] >= Base
                                /\ NBlk + x[2] <= MaxBlocks}) :
@@ -81,14 +83,18 @@ GenNext ==
              /\ \E cs \in Pick(BranchContents(CC(Path(p)), NBlk, k)) :
                    /\ Fork(p, cs) /\ UNCHANGED followerVars
                    /\ Log([a |-> "Fork", b |-> NBlk + 1, p |-> p, txs |-> cs])
-       \/ /\ GenForkLen > 0
+       \/ /\ GenForkLen > 0 /\ up
           /\ \E l \in Pick({x \in Blocks : IsLeaf(x) /\ ~OnBest(x)}) :
              /\ SwitchTo(l) /\ UNCHANGED followerVars
              /\ Log([a |-> "SwitchTo", b |-> l])
-       \/ /\ GenPending
+       \/ /\ GenPending /\ up
           /\ \E t \in Pick({x \in TxIds : PoolOK(x, pool, CC(best))}) :
              /\ Announce(t) /\ UNCHANGED followerVars
              /\ Log([a |-> "Announce", t |-> t])
+       \/ /\ Crashes /\ Crash /\ Log([a |-> "Crash"])
+       \/ /\ Crashes /\ Restart /\ Log([a |-> "Restart"])
+       \/ /\ Crashes /\ \E k \in Pick(1..CatchUpSteps(wchain)) :
+                         RestartCrash(k) /\ Log([a |-> "RestartCrash", k |-> k])
        \/ HandleBlock /\ Log([a |-> "HandleBlock", b |-> Head(ntfB)])
        \/ HandleTx /\ Log([a |-> "HandleTx", t |-> Head(ntfT), acc |-> TxAccepted(Head(ntfT)),
                             why |-> AcceptedHow(Head(ntfT))])
